@@ -182,9 +182,10 @@ def dump_db():
     c = env.raw_conn().cursor()
     out = {}
     for t in TABLES:
-        c.execute('select * from %s order by 1' % t)
+        c.execute('select * from %s' % t)
         cols = [d[0] for d in c.description]
-        rows = c.fetchall()
+        k = cols.index('id') if 'id' in cols else 0
+        rows = sorted(c.fetchall(), key=lambda r: str(r[k]))
         if rows:
             out[t] = (cols, rows)
     return out
@@ -199,8 +200,9 @@ def diff_db(a, b):
         if ra == rb:
             continue
         cols = ca or cb
-        ka = {r[0]: r for r in ra}
-        kb = {r[0]: r for r in rb}
+        i = cols.index('id') if 'id' in cols else 0
+        ka = {r[i]: r for r in ra}
+        kb = {r[i]: r for r in rb}
         for k in sorted(set(ka) | set(kb), key=str):
             if k not in kb:
                 out.append('%s: row %s deleted' % (t, k))
@@ -245,7 +247,7 @@ def _kill_activities():
                 pass
 
 
-def restore(snapshot, id_base=ID_BASE):
+def restore(snapshot, id_base=ID_BASE, clock=0):
     _kill_activities()
     env.W.__init__()
     env.GL.reset()
@@ -256,7 +258,7 @@ def restore(snapshot, id_base=ID_BASE):
     env.Ids.perm = None
     spec_parser.clear_caches()
     auth_context.set_ctx(None)
-    env.set_clock(0)
+    env.set_clock(clock)
     env.use_legacy_scheduler(1)
     set_policy(())
 
@@ -318,7 +320,8 @@ def send(method, url, body=None, ctype=None, project='P1', admin=False):
             'text': r.text[:300] if js is None else
             str((js or {}).get('faultstring', ''))[:300]
             if isinstance(js, dict) else '',
-            'sql': list(SQL_LOG), 'msgs': msgs}
+            'sql': list(SQL_LOG), 'msgs': msgs,
+            'pending': [(m.topic, m.method, m.short()) for m in env.W.msgs]}
 
 
 # ------------------------------------------------------------------ fixtures
@@ -473,6 +476,7 @@ def build_fixtures():
     if env.W.msgs or [a for a in env.W.acts if not a.done]:
         raise HarnessError('fixture not quiescent')
     fx['_ids'] = env.Ids.n
+    fx['_clock'] = env.W.clock
     return env.raw_conn().serialize(), fx
 
 
